@@ -9,9 +9,11 @@
    - its instances on the protocol's gadgets: input sharing, resharing (hence product followed
      by resharing), reveal (simulatable from the output), oblivious transfer (receiver).
    - the composition over whole compiled programs of the elementwise fragment (add, subtract,
-     multiply, constants; every array type and width): C03_maskcheck_sound, the soundness theorem
-     of the static analysis [maskcheck] (Model/MaskCheck.v), which is run inside Coq on every
-     exported compiler output (T:maskcheck cases).
+     multiply, constants; every array type and width) and of tuples create_tuple(e1, .., ek) of
+     elementwise values (tuple-valued shares sent as one message, the output revealed component by
+     component): C03_maskcheck_sound, the soundness theorem of the static analysis [maskcheck]
+     (Model/MaskCheck.v), which is run inside Coq on every exported compiler output
+     (T:maskcheck cases).
    For compiled programs OUTSIDE that fragment (truncation, conversions, OT-based protocols,
    permutations, ...) the composition is NOT a theorem (C03_full): it is covered by the gadget
    theorems and by exact enumeration of all mask values for small bit-typed compiled graphs in
@@ -119,7 +121,9 @@ Proof. intros. eapply mval_reval; eauto. Qed.
    tape-independent output value, there is a bijection pi of the tape space (inverse pi') that
    changes only the recorded mask cells and under which EVERY node of p's view (mc_vd: p's and
    public inputs, PRF values under keys p holds, everything delivered to p, everything computed
-   from those) has the same value: p's view is identically distributed for x and x'. *)
+   from those) has the same value: p's view is identically distributed for x and x'.  A value may
+   be a tuple (rval: RTup); for a node that is statically a tuple the same holds for every
+   component in the view (mc_cvd), whether or not the whole tuple is. *)
 Theorem C03_maskcheck_sound :
   forall (R : Type) (r0 r1 : R) (radd rmul rsub : R -> R -> R) (ropp : R -> R),
   ring_theory r0 r1 radd rmul rsub ropp eq ->
@@ -137,7 +141,10 @@ Theorem C03_maskcheck_sound :
     (forall t cl, pi (pi' t) cl = t cl) /\
     (forall t cl, zmem cl (mask_cells M) = false -> pi t cl = t cl) /\
     (forall t i, mc_vd c p nodes i = true ->
-       nval R r0 radd rmul rsub catom one (pi t) x' nodes i = nval R r0 radd rmul rsub catom one t x nodes i).
+       nval R r0 radd rmul rsub catom one (pi t) x' nodes i = nval R r0 radd rmul rsub catom one t x nodes i) /\
+    (forall t i j, mc_cvd c p nodes i j = true ->
+       cval R j (nval R r0 radd rmul rsub catom one (pi t) x' nodes i)
+       = cval R j (nval R r0 radd rmul rsub catom one t x nodes i)).
 Proof. intros. eapply maskcheck_sound; eauto. Qed.
 
 (* Non-vacuity.  A compiled-style graph: three PRF keys (node 2i drawn by party i, copy 2i+1 sent
@@ -171,9 +178,9 @@ Definition ex_cfg : config := mkCfg [StParty 0] [2] [(0, 0); (2, 1); (4, 2)].
    observer 2 (output party): the input share is masked by the PRF value under k1, the missing
    output share is the reveal pattern; observer 0 (the input owner): masked by k2's value *)
 Example C03_maskcheck_example :
-  maskcheck ex_cfg 1 ex_nodes 19 = Some [(7, true, 16)] /\
-  maskcheck ex_cfg 2 ex_nodes 19 = Some [(8, true, 14)] /\
-  maskcheck ex_cfg 0 ex_nodes 19 = Some [(9, true, 15)] /\
+  maskcheck ex_cfg 1 ex_nodes 19 = Some [(7, true, 16, -1)] /\
+  maskcheck ex_cfg 2 ex_nodes 19 = Some [(8, true, 14, -1)] /\
+  maskcheck ex_cfg 0 ex_nodes 19 = Some [(9, true, 15, -1)] /\
   (* the views are not empty: deliveries, own PRF values and the output are in the view *)
   map (mc_vd ex_cfg 2 ex_nodes) [1; 7; 8; 9; 14; 17; 19] = [true; true; false; true; true; true; true] /\
   viewcover ex_cfg 0 ex_nodes && viewcover ex_cfg 1 ex_nodes && viewcover ex_cfg 2 ex_nodes = true.
@@ -204,10 +211,10 @@ Definition ex_share : list node := firstn 17 ex_nodes.
 Definition ex_cfg0 : config := mkCfg [StParty 0] [] [(0, 0); (2, 1); (4, 2)].
 Example C03_maskcheck_instance :
   let V := nval Z 0 Z.add Z.mul Z.sub (fun _ => 7) 1 in
-  let ds := dlist Z 0 Z.add Z.mul Z.sub Z.opp (fun _ => 7) 1 ex_share [(8, true, 14)] in
+  let ds := dlist Z 0 Z.add Z.mul Z.sub Z.opp (fun _ => 7) 1 ex_share [(8, true, 14, -1)] in
   let pi := pi Z Z.add Z.opp Z Z.eqb (list (rval Z)) ds [RLeaf Z 5] [RLeaf Z 42] in
   let t := fun cl => cl * 10 + 3 in
-  maskcheck ex_cfg0 2 ex_share 16 = Some [(8, true, 14)] /\
+  maskcheck ex_cfg0 2 ex_share 16 = Some [(8, true, 14, -1)] /\
   forallb (fun i => negb (mc_vd ex_cfg0 2 ex_share i) ||
                     match V (pi t) [RLeaf Z 42] ex_share i, V t [RLeaf Z 5] ex_share i with
                     | RLeaf _ a, RLeaf _ b => a =? b | RKey _, RKey _ => true | _, _ => false end)
@@ -217,6 +224,180 @@ Example C03_maskcheck_instance :
   V (pi t) [RLeaf Z 42] ex_share 14 = RLeaf Z (-5) /\ V t [RLeaf Z 5] ex_share 14 = RLeaf Z (-5) /\
   (t 8, pi t 8) = (83, 120).
 Proof. vm_compute. repeat split. Qed.
+
+(* ------------------------------------------------------------------ tuple-valued programs *)
+(* The compiler's output (exported by the harness, not written by hand) for
+     create_tuple(a * b, c),  a, b, c owned by parties 0, 1, 2, revealed to party 2.
+   Nodes 0-38: keys and input sharing; 39-50: the three 3-out-of-3 product shares 42, 46, 50;
+   51-62: two zero sharings; 63-74: party i's reshared share of the tuple, (product share + zero
+   share, share of c + zero share), built by CreateTuple and sent AS ONE tuple-valued message
+   (nodes 66, 70, 74); 75: party 1 sends its tuple share to party 2 (reveal); 76-86: the output,
+   a CreateTuple of one Add-tree per component over TupleGet's of the three share tuples. *)
+Definition tup_ty : ty := TArray [1; 2; 2] U32.
+Definition tup_key : ty := TArray [128] Bit.
+Definition tup_tt : ty := TTuple [tup_ty; tup_ty].
+Definition ex_tup_nodes : list node :=
+  [
+    (mkNode (ORandom tup_key) [] [] [] tup_key);
+    (mkNode ONOP [0] [] [(ASend 0 2)] tup_key);
+    (mkNode (ORandom tup_key) [] [] [] tup_key);
+    (mkNode ONOP [2] [] [(ASend 1 0)] tup_key);
+    (mkNode (ORandom tup_key) [] [] [] tup_key);
+    (mkNode ONOP [4] [] [(ASend 2 1)] tup_key);
+    (mkNode (OInput tup_ty) [] [] [] tup_ty);
+    (mkNode (OPRF 1 tup_ty) [1] [] [] tup_ty);
+    (mkNode (OPRF 2 tup_ty) [3] [] [] tup_ty);
+    (mkNode (OPRF 3 tup_ty) [5] [] [] tup_ty);
+    (mkNode OSubtract [7; 8] [] [] tup_ty);
+    (mkNode OSubtract [8; 9] [] [] tup_ty);
+    (mkNode OSubtract [9; 7] [] [] tup_ty);
+    (mkNode OAdd [10; 6] [] [] tup_ty);
+    (mkNode ONOP [13] [] [(ASend 0 2)] tup_ty);
+    (mkNode ONOP [11] [] [(ASend 1 0)] tup_ty);
+    (mkNode ONOP [12] [] [(ASend 2 1)] tup_ty);
+    (mkNode (OInput tup_ty) [] [] [] tup_ty);
+    (mkNode (OPRF 4 tup_ty) [1] [] [] tup_ty);
+    (mkNode (OPRF 5 tup_ty) [3] [] [] tup_ty);
+    (mkNode (OPRF 6 tup_ty) [5] [] [] tup_ty);
+    (mkNode OSubtract [18; 19] [] [] tup_ty);
+    (mkNode OSubtract [19; 20] [] [] tup_ty);
+    (mkNode OSubtract [20; 18] [] [] tup_ty);
+    (mkNode OAdd [22; 17] [] [] tup_ty);
+    (mkNode ONOP [21] [] [(ASend 0 2)] tup_ty);
+    (mkNode ONOP [24] [] [(ASend 1 0)] tup_ty);
+    (mkNode ONOP [23] [] [(ASend 2 1)] tup_ty);
+    (mkNode (OInput tup_ty) [] [] [] tup_ty);
+    (mkNode (OPRF 7 tup_ty) [1] [] [] tup_ty);
+    (mkNode (OPRF 8 tup_ty) [3] [] [] tup_ty);
+    (mkNode (OPRF 9 tup_ty) [5] [] [] tup_ty);
+    (mkNode OSubtract [29; 30] [] [] tup_ty);
+    (mkNode OSubtract [30; 31] [] [] tup_ty);
+    (mkNode OSubtract [31; 29] [] [] tup_ty);
+    (mkNode OAdd [34; 28] [] [] tup_ty);
+    (mkNode ONOP [32] [] [(ASend 0 2)] tup_ty);
+    (mkNode ONOP [33] [] [(ASend 1 0)] tup_ty);
+    (mkNode ONOP [35] [] [(ASend 2 1)] tup_ty);
+    (mkNode OAdd [25; 26] [] [] tup_ty);
+    (mkNode OMultiply [14; 39] [] [] tup_ty);
+    (mkNode OMultiply [15; 25] [] [] tup_ty);
+    (mkNode OAdd [40; 41] [] [] tup_ty);
+    (mkNode OAdd [26; 27] [] [] tup_ty);
+    (mkNode OMultiply [15; 43] [] [] tup_ty);
+    (mkNode OMultiply [16; 26] [] [] tup_ty);
+    (mkNode OAdd [44; 45] [] [] tup_ty);
+    (mkNode OAdd [27; 25] [] [] tup_ty);
+    (mkNode OMultiply [16; 47] [] [] tup_ty);
+    (mkNode OMultiply [14; 27] [] [] tup_ty);
+    (mkNode OAdd [48; 49] [] [] tup_ty);
+    (mkNode (OPRF 10 tup_ty) [1] [] [] tup_ty);
+    (mkNode (OPRF 11 tup_ty) [3] [] [] tup_ty);
+    (mkNode (OPRF 12 tup_ty) [5] [] [] tup_ty);
+    (mkNode OSubtract [51; 52] [] [] tup_ty);
+    (mkNode OSubtract [52; 53] [] [] tup_ty);
+    (mkNode OSubtract [53; 51] [] [] tup_ty);
+    (mkNode (OPRF 13 tup_ty) [1] [] [] tup_ty);
+    (mkNode (OPRF 14 tup_ty) [3] [] [] tup_ty);
+    (mkNode (OPRF 15 tup_ty) [5] [] [] tup_ty);
+    (mkNode OSubtract [57; 58] [] [] tup_ty);
+    (mkNode OSubtract [58; 59] [] [] tup_ty);
+    (mkNode OSubtract [59; 57] [] [] tup_ty);
+    (mkNode OAdd [42; 54] [] [] tup_ty);
+    (mkNode OAdd [36; 60] [] [] tup_ty);
+    (mkNode OCreateTuple [63; 64] [] [] tup_tt);
+    (mkNode ONOP [65] [] [(ASend 0 2)] tup_tt);
+    (mkNode OAdd [46; 55] [] [] tup_ty);
+    (mkNode OAdd [37; 61] [] [] tup_ty);
+    (mkNode OCreateTuple [67; 68] [] [] tup_tt);
+    (mkNode ONOP [69] [] [(ASend 1 0)] tup_tt);
+    (mkNode OAdd [50; 56] [] [] tup_ty);
+    (mkNode OAdd [38; 62] [] [] tup_ty);
+    (mkNode OCreateTuple [71; 72] [] [] tup_tt);
+    (mkNode ONOP [73] [] [(ASend 2 1)] tup_tt);
+    (mkNode ONOP [70] [] [(ASend 1 2)] tup_tt);
+    (mkNode (OTupleGet 0) [66] [] [] tup_ty);
+    (mkNode (OTupleGet 0) [75] [] [] tup_ty);
+    (mkNode (OTupleGet 0) [74] [] [] tup_ty);
+    (mkNode OAdd [76; 77] [] [] tup_ty);
+    (mkNode OAdd [79; 78] [] [] tup_ty);
+    (mkNode (OTupleGet 1) [66] [] [] tup_ty);
+    (mkNode (OTupleGet 1) [75] [] [] tup_ty);
+    (mkNode (OTupleGet 1) [74] [] [] tup_ty);
+    (mkNode OAdd [81; 82] [] [] tup_ty);
+    (mkNode OAdd [84; 83] [] [] tup_ty);
+    (mkNode OCreateTuple [80; 85] [] [] tup_tt) ].
+Definition ex_tup_cfg : config := mkCfg [StParty 0; StParty 1; StParty 2] [2] [(0, 0); (2, 1); (4, 2)].
+
+(* accepted for every observer: each component of a delivered tuple has its own mask (recorded as
+   (cell, negated, node, component)); for observer 2 the components of the revealed share 75 are
+   the missing summands of the output's components (pattern E, no mask) *)
+Example C03_maskcheck_tuple_example :
+  maskcheck ex_tup_cfg 2 ex_tup_nodes 86
+    = Some [(8, true, 14, -1); (19, true, 25, -1); (30, true, 36, -1); (52, true, 66, 0); (58, true, 66, 1)] /\
+  maskcheck ex_tup_cfg 0 ex_tup_nodes 86
+    = Some [(9, true, 15, -1); (20, true, 26, -1); (31, true, 37, -1); (53, true, 70, 0); (59, true, 70, 1)] /\
+  maskcheck ex_tup_cfg 1 ex_tup_nodes 86
+    = Some [(7, true, 16, -1); (18, true, 27, -1); (29, true, 38, -1); (51, true, 74, 0); (57, true, 74, 1)] /\
+  (* observer 2's view: its own product share 50 but not 42, 46; the delivered tuples 66, 75 and
+     their components; the output and its components; not the tuple 70 sent to party 0 *)
+  map (mc_vd ex_tup_cfg 2 ex_tup_nodes) [42; 46; 50; 66; 70; 75; 77; 80; 86]
+    = [false; false; true; true; false; true; true; true; true] /\
+  map (fun ij => mc_cvd ex_tup_cfg 2 ex_tup_nodes (fst ij) (snd ij)) [(66, 0); (66, 1); (70, 0); (75, 0); (75, 1); (86, 0); (86, 1)]
+    = [true; true; false; true; true; true; true] /\
+  viewcover ex_tup_cfg 0 ex_tup_nodes && viewcover ex_tup_cfg 1 ex_tup_nodes && viewcover ex_tup_cfg 2 ex_tup_nodes = true.
+Proof. vm_compute. repeat split. Qed.
+
+(* "the planner forgot to reshare": the first component of the three share tuples is the bare
+   product share (42, 46, 50) instead of product share + zero share (63, 67, 71); every party then
+   receives a bare 3-out-of-3 product share inside a tuple.  Rejected for all three observers, and
+   the refused location is exactly component 0 of the tuple the observer receives.  [ex_tup_one]:
+   only party 1 forgets; the receiver, party 0, is refused. *)
+Definition upd_deps (l : list node) (i : Z) (ds : list Z) : list node :=
+  map (fun kn => if fst kn =? i then mkNode (n_op (snd kn)) ds (n_gdeps (snd kn)) (n_annots (snd kn)) (n_ty (snd kn))
+                 else snd kn)
+      (combine (zrange (Z.of_nat (length l))) l).
+Definition ex_tup_noreshare : list node :=
+  upd_deps (upd_deps (upd_deps ex_tup_nodes 65 [42; 64]) 69 [46; 68]) 73 [50; 72].
+Definition ex_tup_one : list node := upd_deps ex_tup_nodes 69 [46; 68].
+Example C03_maskcheck_tuple_rejects :
+  map (fun p => maskcheck ex_tup_cfg p ex_tup_noreshare 86) [0; 1; 2] = [None; None; None] /\
+  map (fun p => mc_rejected_locs ex_tup_cfg p ex_tup_noreshare 86) [0; 1; 2] = [[(70, 0)]; [(74, 0)]; [(66, 0)]] /\
+  map (fun p => isSome (maskcheck ex_tup_cfg p ex_tup_one 86)) [0; 1; 2] = [false; true; true] /\
+  mc_rejected_locs ex_tup_cfg 0 ex_tup_one 86 = [(70, 0)].
+Proof. vm_compute. repeat split. Qed.
+
+(* the theorem's bijection on the tuple example, over the ring Z, for observer 2 and two input
+   vectors with the same c (party 2's own input) and the same product a * b (its output): every node
+   of the observer's view, tuples included, has the same value with ((2, 6, 5), pi t) as with
+   ((3, 4, 5), t) *)
+Fixpoint rval_eqb (a b : rval Z) : bool :=
+  match a, b with
+  | RLeaf _ x, RLeaf _ y => x =? y
+  | RKey _, RKey _ => true
+  | RTup _ l, RTup _ l' =>
+      (fix go (l l' : list (rval Z)) : bool :=
+         match l, l' with
+         | [], [] => true
+         | u :: r, u' :: r' => rval_eqb u u' && go r r'
+         | _, _ => false
+         end) l l'
+  | _, _ => false
+  end.
+Example C03_maskcheck_tuple_instance :
+  let V := nval Z 0 Z.add Z.mul Z.sub (fun _ => 7) 1 in
+  let M := [(8, true, 14, -1); (19, true, 25, -1); (30, true, 36, -1); (52, true, 66, 0); (58, true, 66, 1)] in
+  let x := [RLeaf Z 3; RLeaf Z 4; RLeaf Z 5] in
+  let x' := [RLeaf Z 2; RLeaf Z 6; RLeaf Z 5] in
+  let ds := dlist Z 0 Z.add Z.mul Z.sub Z.opp (fun _ => 7) 1 ex_tup_nodes M in
+  let pi := pi Z Z.add Z.opp Z Z.eqb (list (rval Z)) ds x x' in
+  let t := fun cl => cl * cl * 3 + 11 in
+  maskcheck ex_tup_cfg 2 ex_tup_nodes 86 = Some M /\
+  V t x ex_tup_nodes 86 = RTup Z [RLeaf Z 12; RLeaf Z 5] /\ V (pi t) x' ex_tup_nodes 86 = RTup Z [RLeaf Z 12; RLeaf Z 5] /\
+  forallb (fun i => negb (mc_vd ex_tup_cfg 2 ex_tup_nodes i) || rval_eqb (V (pi t) x' ex_tup_nodes i) (V t x ex_tup_nodes i))
+          (zrange 87) = true /\
+  (* the view contains tuples, and pi really moves the masks of the tuple's components *)
+  (exists a b, V t x ex_tup_nodes 66 = RTup Z [RLeaf Z a; RLeaf Z b]) /\
+  negb (pi t 52 =? t 52) && negb (pi t 8 =? t 8) = true.
+Proof. vm_compute. repeat split. do 2 eexists. reflexivity. Qed.
 
 Print Assumptions C03_mval_reval.
 Print Assumptions C03_maskcheck_sound.
